@@ -43,8 +43,21 @@ def getLockPath(dirName, create=False):
         return dirName
 
 def takeLocks(cmdName, path, lockType, nolocks=False, ntry=10, verbose=0):
+    """Lock all the directories in path; if one of them cannot be locked none of them stays locked"""
     locks = []
+    hadLockPid = "EUPS_LOCK_PID" in os.environ
+    try:
+        return _takeLocks(locks, cmdName, path, lockType, nolocks, ntry, verbose)
+    except BaseException:
+        # We will not run, so give back the elements of path that we did lock; nobody else ever would,
+        # and they would block every later command until someone ran "eups admin clearLocks"
+        giveLocks(locks, verbose)
+        del locks[:]
+        if not hadLockPid and "EUPS_LOCK_PID" in os.environ: # set below; we hold nothing a child could re-enter
+            del os.environ["EUPS_LOCK_PID"]
+        raise
 
+def _takeLocks(locks, cmdName, path, lockType, nolocks, ntry, verbose):
     if hooks.config.site.lockDirectoryBase is None:
         if verbose > 2:
             print("Locking is disabled", file=utils.stdinfo)
